@@ -192,6 +192,7 @@ func (s *Store) CloseChildren(k string) {
 
 const stCrossbar = `package crossbar
 import (
+	"encoding/json"
 	"sync"
 	"time"
 	"github.com/eclesh/welford"
@@ -199,8 +200,9 @@ import (
 )
 type Frames struct { last time.Time; size *welford.Stats; ns *welford.Stats; mu *sync.RWMutex }
 type Stats struct { tx, rx *Frames }
-type Client struct { hub *Hub; send chan int; stats *Stats; topic string }
-type Hub struct { clients map[string]map[*Client]bool; dcs *chanmap.Store; mu *sync.RWMutex; unregister chan *Client }
+type Client struct { hub *Hub; send chan int; stats *Stats; topic string; buf []byte }
+type message struct { mt int; data []byte }
+type Hub struct { clients map[string]map[*Client]bool; dcs *chanmap.Store; mu *sync.RWMutex; unregister chan *Client; broadcast chan message }
 
 func (h *Hub) RLockRead(t string) int { h.mu.RLock(); n := len(h.clients[t]); h.mu.RUnlock(); return n }
 func (h *Hub) RLockThenWrite(t string) { h.mu.RLock(); h.clients[t] = nil; h.mu.RUnlock() }
@@ -283,6 +285,28 @@ func WriteAfterPublishingConstructor(h *Hub) { c := newClientPublishing(h); c.to
 func (c *Client) SetTopic(t string) { c.topic = t }
 func PublishInLoop(h *Hub) { c := &Client{}; for i := 0; i < 2; i++ { c.topic = "a"; h.unregister <- c } }
 func CapturedThenWritten(h *Hub) { c := &Client{}; go func() { _ = c.topic }(); c.topic = "x" }
+func (c *Client) PumpFresh(n int) { data := make([]byte, n); c.hub.broadcast <- message{data: data} }
+func (c *Client) PumpMarshal(v interface{}) { b, _ := json.Marshal(v); c.hub.broadcast <- message{mt: 1, data: b} }
+func (h *Hub) Forward(out chan message) { m := <-h.broadcast; out <- m }
+func (h *Hub) ForwardSelect(out chan message, done chan bool) {
+	select {
+	case m := <-h.broadcast:
+		select {
+		case out <- m:
+		default:
+		}
+	case <-done:
+	}
+}
+func freshBuf(n int) []byte { return append([]byte{}, make([]byte, n)...) }
+func (c *Client) PumpFreshHelper() { c.hub.broadcast <- message{data: freshBuf(3)} }
+func (c *Client) PumpScratch(scratch *[]byte) { buf := append((*scratch)[:0], 1, 2); *scratch = buf; c.hub.broadcast <- message{data: buf} }
+func (c *Client) PumpField() { c.hub.broadcast <- message{data: c.buf} }
+func (c *Client) PumpArgument(b []byte) { c.hub.broadcast <- message{data: b} }
+func (c *Client) PumpWrittenAfter() { d := make([]byte, 4); c.hub.broadcast <- message{data: d}; d[0] = 1 }
+func readInto(scratch *[]byte) []byte { buf := append((*scratch)[:0], 0); *scratch = buf; return buf }
+func (c *Client) PumpReusingHelper() { var s []byte; for { d := readInto(&s); c.hub.broadcast <- message{data: d} } }
+func (c *Client) PumpKeptInField() { d := make([]byte, 4); c.buf = d; c.hub.broadcast <- message{data: d} }
 `
 
 type stExpect struct{ wl, nb, lo bool }
@@ -363,6 +387,17 @@ var stWant = map[string]stExpect{
 	"crossbar.PublishInLoop":                      {false, false, false},
 	"crossbar.CapturedThenWritten":                {false, false, false},
 	"crossbar.CapturedThenWritten$1":              {true, true, true},
+	"crossbar.Client.PumpFresh":                   {true, true, true},
+	"crossbar.Client.PumpMarshal":                 {true, true, true},
+	"crossbar.Hub.Forward":                        {true, true, true},
+	"crossbar.Hub.ForwardSelect":                  {true, true, true},
+	"crossbar.Client.PumpFreshHelper":             {true, true, true},
+	"crossbar.Client.PumpScratch":                 {false, false, false},
+	"crossbar.Client.PumpField":                   {false, false, false},
+	"crossbar.Client.PumpArgument":                {false, false, false},
+	"crossbar.Client.PumpWrittenAfter":            {false, false, false},
+	"crossbar.Client.PumpReusingHelper":           {false, false, false},
+	"crossbar.Client.PumpKeptInField":             {false, false, false},
 }
 
 // exact IR of a few corpus functions: guards against a translation that passes by producing nothing
